@@ -85,6 +85,9 @@ pub struct GenCfg {
     /// with `typed == false`: rules stay typed (the fixpoint rarely fails), only checks, policies
     /// and queries get untyped expressions
     pub typed_rules: bool,
+    /// expressions carry explicit `Parens` operations wherever the grammar needs them (what the
+    /// parser itself would produce); required when printed text must parse back
+    pub grammar_normal: bool,
 }
 
 impl Default for GenCfg {
@@ -106,6 +109,7 @@ impl Default for GenCfg {
             sigs: vec![],
             off_arity: true,
             typed_rules: false,
+            grammar_normal: false,
         }
     }
 }
@@ -182,6 +186,9 @@ pub fn gen_any(t: &mut Tape, cfg: &GenCfg, depth: usize) -> Term {
     let max = if cfg.v33 {
         if depth == 0 {
             7
+        } else if cfg.grammar_normal {
+            // the grammar has no arrays inside sets
+            9
         } else {
             10
         }
@@ -496,6 +503,111 @@ impl ETree {
         self.lower(&mut ops);
         Expr { ops }
     }
+
+    /// precedence level in the grammar (binary_op_0 .. binary_op_7), 9 = expr_term / method chain
+    fn level(&self) -> u8 {
+        match self {
+            ETree::Val(_) => 9,
+            ETree::Un(Un::Parens, _) => 9,
+            ETree::Un(Un::Negate, _) => 8,
+            ETree::Un(_, _) => 9, // methods
+            ETree::Clo(_, _, _, _) => 9,
+            ETree::Bin(b, _, _) => bin_level(b),
+        }
+    }
+
+    /// Insert explicit `Parens` operations exactly where the grammar needs them, so that the
+    /// printed expression parses back to the same operation sequence (the printer emits
+    /// parentheses only for `Parens` operations). Operators the grammar cannot produce (strict
+    /// `And` / `Or`) are left alone.
+    pub fn grammar_normal(self) -> ETree {
+        fn wrap(e: ETree) -> ETree {
+            ETree::Un(Un::Parens, Box::new(e))
+        }
+        // a receiver of a method call must be a term, a parenthesised expression or a method call
+        fn receiver(e: ETree) -> ETree {
+            let e = e.grammar_normal();
+            match &e {
+                ETree::Val(Term::Int(i)) if *i < 0 => wrap(e),
+                // the date literal swallows everything up to the next separator: `date.type()`
+                // is not in the language, `(date).type()` is
+                ETree::Val(Term::Date(_)) => wrap(e),
+                _ if e.level() == 9 => e,
+                _ => wrap(e),
+            }
+        }
+        match self {
+            ETree::Val(t) => ETree::Val(t),
+            ETree::Un(Un::Parens, e) => ETree::Un(Un::Parens, Box::new(e.grammar_normal())),
+            ETree::Un(Un::Negate, e) => {
+                // `!` is followed by an expr6: anything looser needs parentheses; a nested
+                // negation or comparison etc. as well
+                let e = e.grammar_normal();
+                if matches!(e.level(), 6 | 7 | 8 | 9) {
+                    ETree::Un(Un::Negate, Box::new(e))
+                } else {
+                    ETree::Un(Un::Negate, Box::new(wrap(e)))
+                }
+            }
+            ETree::Un(u, e) => ETree::Un(u, Box::new(receiver(*e))),
+            ETree::Clo(b, l, p, body) => ETree::Clo(b, Box::new(receiver(*l)), p, Box::new(body.grammar_normal())),
+            ETree::Bin(b, l, r) => {
+                let lvl = bin_level(&b);
+                if lvl == 9 {
+                    // method with one argument: receiver.method(expr)
+                    return ETree::Bin(b, Box::new(receiver(*l)), Box::new(r.grammar_normal()));
+                }
+                if lvl == 10 {
+                    // not producible by the grammar
+                    return ETree::Bin(b, Box::new(l.grammar_normal()), Box::new(r.grammar_normal()));
+                }
+                let l = l.grammar_normal();
+                let r = r.grammar_normal();
+                // `!x` extends to the right over + - * /: never leave it bare next to them
+                let neg_sensitive = lvl >= 6;
+                let l_ok = if lvl == 2 { l.level() > lvl } else { l.level() >= lvl } && !(neg_sensitive && l.level() == 8);
+                let r_ok = r.level() > lvl && !(neg_sensitive && r.level() == 8);
+                // a negation as the left operand of anything looser also swallows the operator's
+                // right side only for levels >= 6; for looser operators it is fine
+                ETree::Bin(
+                    b,
+                    Box::new(if l_ok { l } else { wrap(l) }),
+                    Box::new(if r_ok { r } else { wrap(r) }),
+                )
+            }
+        }
+    }
+}
+
+fn bin_level(b: &Bin) -> u8 {
+    match b {
+        Bin::LazyOr => 0,
+        Bin::LazyAnd => 1,
+        Bin::LessThan
+        | Bin::GreaterThan
+        | Bin::LessOrEqual
+        | Bin::GreaterOrEqual
+        | Bin::Equal
+        | Bin::NotEqual
+        | Bin::HeterogeneousEqual
+        | Bin::HeterogeneousNotEqual => 2,
+        Bin::BitwiseXor => 3,
+        Bin::BitwiseOr => 4,
+        Bin::BitwiseAnd => 5,
+        Bin::Add | Bin::Sub => 6,
+        Bin::Mul | Bin::Div => 7,
+        Bin::And | Bin::Or => 10,
+        Bin::Contains
+        | Bin::Prefix
+        | Bin::Suffix
+        | Bin::Regex
+        | Bin::Intersection
+        | Bin::Union
+        | Bin::All
+        | Bin::Any
+        | Bin::Get
+        | Bin::Ffi(_) => 9,
+    }
 }
 
 fn bx(e: ETree) -> Box<ETree> {
@@ -802,7 +914,12 @@ fn gen_closure_body(t: &mut Tape, cfg: &GenCfg, env: &Env, param: &str, depth: u
 
 pub fn gen_typed_expr(t: &mut Tape, cfg: &GenCfg, env: &Env) -> Expr {
     let depth = t.weighted(&[2, 4, 2, 1]);
-    gen_bool_expr(t, cfg, env, depth).to_expr()
+    let e = gen_bool_expr(t, cfg, env, depth);
+    if cfg.grammar_normal {
+        e.grammar_normal().to_expr()
+    } else {
+        e.to_expr()
+    }
 }
 
 // ---------------------------------------------------------------------------------------------
@@ -854,7 +971,12 @@ pub fn gen_untyped_tree(t: &mut Tape, cfg: &GenCfg, env: &Env, depth: usize) -> 
 
 pub fn gen_untyped_expr(t: &mut Tape, cfg: &GenCfg, env: &Env) -> Expr {
     let depth = t.weighted(&[1, 4, 3, 1]);
-    gen_untyped_tree(t, cfg, env, depth).to_expr()
+    let e = gen_untyped_tree(t, cfg, env, depth);
+    if cfg.grammar_normal {
+        e.grammar_normal().to_expr()
+    } else {
+        e.to_expr()
+    }
 }
 
 /// collect the predicate names used by rule bodies / checks / policies of a block
